@@ -56,7 +56,40 @@ PROBE32(p_f32n_u, bf_ref_f32n, unsigned int, float)
 PROBE32(p_f32n_i, bf_ref_f32n, int, float)
 PROBE32(p_f32l_i, bf_ref_f32l, int, float)
 
+/* the caller's storage is an array of narrower words (a uint16_t register file, uint32_t words): one of its words is stored through the
+ * typed pointer, then the wider value is loaded through the codec - and the other way round: the codec stores, the caller reads one of
+ * its own words back. Expected values are the memory images (little-endian host, big-endian and little-endian codecs). */
+#define PROBEW(NAME, LOADER, STORER, WTYPE, BIG)                                                \
+    __attribute__((noinline)) static void NAME##_core(WTYPE *cell, void *wire, WTYPE sx, WTYPE sy, uint64_t v, uint64_t *a, uint64_t *b, WTYPE *c) \
+    {                                                                                        \
+        cell[0] = sx;                                                                        \
+        *a = LOADER(wire);                                                                   \
+        cell[0] = sy;                                                                        \
+        *b = LOADER(wire);                                                                   \
+        cell[0] = 0;                                                                         \
+        STORER(wire, v);                                                                     \
+        *c = cell[0];                                                                        \
+    }                                                                                        \
+    static int NAME(void *mem, uint64_t x, uint64_t y)                                       \
+    {                                                                                        \
+        unsigned char img[8]; uint64_t a, b, ea, eb, v = x ^ (y << 1) ^ 0x0123456789abcdefull; WTYPE c, ec;      \
+        WTYPE sx = (WTYPE)x, sy = (WTYPE)y;                                                  \
+        memset(mem, 0x5a, 8);                                                                \
+        memcpy(img, mem, 8); memcpy(img, &sx, sizeof sx); ea = 0; for (int i = 0; i < 8; i++) ea |= (uint64_t)img[BIG ? 7 - i : i] << (8 * i);   \
+        memcpy(img, &sy, sizeof sy); eb = 0; for (int i = 0; i < 8; i++) eb |= (uint64_t)img[BIG ? 7 - i : i] << (8 * i);                          \
+        for (int i = 0; i < 8; i++) img[BIG ? 7 - i : i] = (unsigned char)(v >> (8 * i));    \
+        memcpy(&ec, img, sizeof ec);                                                         \
+        NAME##_core((WTYPE *)mem, mem, sx, sy, v, &a, &b, &c);                               \
+        return a == ea && b == eb && c == ec;                                                \
+    }
+PROBEW(p_u64b_w16, bf_ref_u64b, bf_set_u64b, uint16_t, 1)
+PROBEW(p_u64l_w16, bf_ref_u64l, bf_set_u64l, uint16_t, 0)
+PROBEW(p_u64b_w32, bf_ref_u64b, bf_set_u64b, uint32_t, 1)
+PROBEW(p_u64l_w32, bf_ref_u64l, bf_set_u64l, uint32_t, 0)
+PROBEW(p_u64n_w16, bf_ref_u64n, bf_set_u64n, uint16_t, 0)
+
 const struct vp_alias_probe vp_alias_probes[] = {
+    {"u64b<->uint16_t words", p_u64b_w16}, {"u64l<->uint16_t words", p_u64l_w16}, {"u64b<->uint32_t words", p_u64b_w32}, {"u64l<->uint32_t words", p_u64l_w32}, {"u64n<->uint16_t words", p_u64n_w16},
     {"u64n<-double", p_u64n_d}, {"u64n<-unsigned long long", p_u64n_ull}, {"s64n<-double", p_s64n_d}, {"s64n<-long long", p_s64n_ll},
     {"f64n<-unsigned long long", p_f64n_ull}, {"f64n<-long long", p_f64n_ll}, {"u64l<-double", p_u64l_d}, {"s64l<-double", p_s64l_d}, {"f64l<-unsigned long long", p_f64l_ull},
     {"u32n<-float", p_u32n_f}, {"s32n<-float", p_s32n_f}, {"u32l<-float", p_u32l_f}, {"f32n<-unsigned", p_f32n_u}, {"f32n<-int", p_f32n_i}, {"f32l<-int", p_f32l_i},
